@@ -186,8 +186,14 @@ def main(argv=None):
         if nviol >= 25:
             nviol += 1
             continue
-        path = write_replay(prop, f)
-        ok, msg = confirm(prop, variant, path)
+        # confirm in a fresh process; several records of the same key may exist (different shards)
+        ok = False
+        for cand in fl[:4]:
+            path = write_replay(prop, cand)
+            ok, msg = confirm(prop, variant, path)
+            if ok:
+                f = cand
+                break
         if not ok:
             harness_errors.append({"harness_error": f"failure did not reproduce: {key}: {f['what']} :: {msg}"})
             continue
